@@ -371,6 +371,15 @@ pub fn mirrors(out: &mut dyn Write, rng: &mut Rng, n: usize, k_max: u64) {
         cnt += 1;
         mirror_line(out, b, k_max);
     });
+    // sparse random roots: few men, castling rights, e.p. markers, endgame evaluation terms (king hunt, level material, lone minors)
+    for b in crate::chess::sparse_boards(rng, n) {
+        if sorted_moves(&b).iter().any(|m| m.piece.is_some()) || b.half_move_clock() >= 90 {
+            skipped += 1;
+            continue;
+        }
+        cnt += 1;
+        mirror_line(out, &b, k_max);
+    }
     writeln!(out, "DIST\tmirror_pairs={cnt}\tmirror_skipped_root_promotion={skipped}").unwrap();
 }
 
